@@ -371,7 +371,9 @@ pub fn check_case(c: &TextCase, obs: &mut Obs) -> Verdict {
     if c.opt % 8 == 6 {
         return check_custom(c, obs);
     }
-    let cfg = config(c.alg);
+    let mut cfg = config(c.alg);
+    let (vk, under_deadline) = deadline_dimension(c, &mut cfg);
+    obs.class_if(under_deadline, "text diff made under a deadline that runs out (passed before the start / at one of the first probes)");
     let what = format!("{} {} {}", alg_name(c.alg), TOKENIZERS[(c.tok % 5) as usize], if c.use_bytes() { "[u8]" } else { "str" });
     obs.class(TOKENIZERS[(c.tok % 5) as usize]);
     obs.class(alg_name(c.alg));
@@ -380,18 +382,23 @@ pub fn check_case(c: &TextCase, obs: &mut Obs) -> Verdict {
     obs.class_if(c.old.0.is_empty() && c.new.0.is_empty(), "both texts empty");
     let r = if c.use_bytes() {
         guard(|| {
+            similar::verif::clock::install(vk);
             let d = diff_bytes(&cfg, c.tok, &c.old.0, &c.new.0);
+            similar::verif::clock::install(None);
             exercise(&d, c.opt);
             judge(&d, &c.old.0[..], &c.new.0[..], false, obs)
         })
     } else {
         guard(|| {
             let (o, n) = (c.old.as_str().unwrap(), c.new.as_str().unwrap());
+            similar::verif::clock::install(vk);
             let d = diff_str(&cfg, c.tok, o, n);
+            similar::verif::clock::install(None);
             exercise(&d, c.opt);
             judge(&d, o, n, false, obs)
         })
     };
+    similar::verif::clock::install(None);
     match r {
         Ok(Ok(())) => {}
         Ok(Err(m)) => return Verdict::Fail(format!("{}: {}", what, m)),
@@ -439,7 +446,7 @@ impl Prop for C17 {
     type Case = TextCase;
     const ID: &'static str = "C17";
     fn rule() -> String {
-        "cases = (old text, new text, tokenizer, algorithm, str | [u8]) from the shared text mixture (see C04) plus an enumeration of 6x6 corner texts x 5 tokenizers x 3 algorithms x {str,[u8]} (covers (\"\",\"\") for every algorithm). Oracle: TextDiffRemapper::{from_text_diff,new}::iter_slices(op) has the tags of DiffOp::iter_slices over the token vectors, each slice equals the concatenation of the op's tokens and is the substring of the original at the right byte offset (pointer arithmetic); slice_old/slice_new agree; non-Insert slices concatenate to old, non-Delete to new; utils::diff_{lines,words,chars,unicode_words,graphemes,slices} reconstruct both inputs, return no empty slice, do not panic and equal the text diff with the same algorithm expanded through TextDiffRemapper (diff_lines: one change per line, as documented); every utils::diff_slices slice is the sub-slice of the proper input at the walk position (pointer arithmetic), also over record items that compare by key only (payloads tell old from new items). 1 random case in 8 uses a CALLER-DEFINED tokenization (text cut at pseudo-random char boundaries, occasional empty tokens) through TextDiffConfig::diff_slices + both remapper constructors (the no-empty-slice clause is not applied there). Non-trivial = >= 2 ops and a multi-token slice; distinct = distinct serialized case.".into()
+        "1 case in 6 builds its TextDiff under a deadline that has passed or runs out at one of the first probes (virtual clock); cases = (old text, new text, tokenizer, algorithm, str | [u8]) from the shared text mixture (see C04) plus an enumeration of 6x6 corner texts x 5 tokenizers x 3 algorithms x {str,[u8]} (covers (\"\",\"\") for every algorithm). Oracle: TextDiffRemapper::{from_text_diff,new}::iter_slices(op) has the tags of DiffOp::iter_slices over the token vectors, each slice equals the concatenation of the op's tokens and is the substring of the original at the right byte offset (pointer arithmetic); slice_old/slice_new agree; non-Insert slices concatenate to old, non-Delete to new; utils::diff_{lines,words,chars,unicode_words,graphemes,slices} reconstruct both inputs, return no empty slice, do not panic and equal the text diff with the same algorithm expanded through TextDiffRemapper (diff_lines: one change per line, as documented); every utils::diff_slices slice is the sub-slice of the proper input at the walk position (pointer arithmetic), also over record items that compare by key only (payloads tell old from new items). 1 random case in 8 uses a CALLER-DEFINED tokenization (text cut at pseudo-random char boundaries, occasional empty tokens) through TextDiffConfig::diff_slices + both remapper constructors (the no-empty-slice clause is not applied there). Non-trivial = >= 2 ops and a multi-token slice; distinct = distinct serialized case.".into()
     }
     fn assumptions() -> Vec<String> {
         vec!["the original strings passed to the remapper are the ones the diff was built from".into()]
